@@ -156,12 +156,19 @@ func (conv *converter) convertInitFunc(dst *ir.File, decl *ast.FuncDecl) {
 
 		switch fn.Sel.Name {
 		case "ImportRules":
+			// `dsl` is recognized by its name alone: it may be a user value with any ImportRules method.
+			if len(call.Args) != 2 {
+				panic(conv.errorf(stmt, "ImportRules() expects 2 arguments"))
+			}
 			prefix := conv.parseStringArg(call.Args[0])
 			bundleSelector, ok := call.Args[1].(*ast.SelectorExpr)
 			if !ok {
 				panic(conv.errorf(call.Args[1], "expected a `pkgname.Bundle` argument"))
 			}
 			bundleObj := conv.types.ObjectOf(bundleSelector.Sel)
+			if bundleObj == nil || bundleObj.Pkg() == nil {
+				panic(conv.errorf(call.Args[1], "expected a `pkgname.Bundle` argument"))
+			}
 			dst.BundleImports = append(dst.BundleImports, ir.BundleImport{
 				Prefix:  prefix,
 				PkgPath: bundleObj.Pkg().Path(),
